@@ -627,15 +627,17 @@ func ruleP05ApplyAbort(p *Prog, r *Report) {
 	}
 	// steps: dynamic calls of a value of named type reconciling.Reconcile
 	var steps []ssa.CallInstruction
-	eachInstr(f, func(in ssa.Instruction) {
-		c, ok := in.(ssa.CallInstruction)
+	stepChain := map[ssa.CallInstruction][]ssa.CallInstruction{}
+	for _, vi := range virtualInstrs(f) {
+		c, ok := vi.in.(ssa.CallInstruction)
 		if !ok || c.Common().IsInvoke() || staticCallee(c) != nil {
-			return
+			continue
 		}
 		if typeNameOf(c.Common().Value.Type()) == "Reconcile" {
 			steps = append(steps, c)
+			stepChain[c] = vi.chain
 		}
-	})
+	}
 	mkCalls := callsTo(f, mk)
 	if len(steps) == 0 || len(mkCalls) != 1 {
 		r.undecided(rule, "anchors", p.pos(f.Pos()), "expected >=1 dynamic Reconcile step call and exactly one MakeResult call (found %d, %d)", len(steps), len(mkCalls))
@@ -661,6 +663,42 @@ func ruleP05ApplyAbort(p *Prog, r *Report) {
 		e := resultOf(st, 0)
 		if e == nil {
 			r.bad(rule, key+":tested", p.instrPos(st), "the error of a reconcile step is discarded")
+			continue
+		}
+		if chain := stepChain[st]; len(chain) == 1 && st.Parent() != f {
+			// the steps run in a helper: a failing step makes the helper return a non-nil error at
+			// once, and the caller aborts on the helper's error
+			h := st.Parent()
+			hNonNil, _, okH := errorEdge(h, e)
+			if !okH {
+				r.bad(rule, key+":tested", p.instrPos(st), "the error of a reconcile step is not tested for nil right after the call")
+				continue
+			}
+			msgH := rejectComplete(hNonNil, func(ret *ssa.Return) string {
+				if len(ret.Results) == 0 || p.nilnessAt(ret.Block(), retResult(ret, len(ret.Results)-1), 0) != nnNonNil {
+					return "the helper goes on (or returns without an error) after a failing step at " + p.instrPos(ret)
+				}
+				return ""
+			})
+			hc := chain[0]
+			he := resultOf(hc, errResultIndex(hc.Common().Signature()))
+			msg := msgH
+			if msg == "" {
+				if he == nil {
+					msg = "the error of " + calleeName(hc) + " is discarded"
+				} else if fNonNil, _, okF := errorEdge(f, he); !okF {
+					msg = "the error of " + calleeName(hc) + " is not tested"
+				} else {
+					msg = rejectComplete(fNonNil, failRet)
+				}
+			}
+			r.check(msg == "", rule, key+":aborts", p.instrPos(st), "a failing step returns (nil, error) on every path", "a failing step does not abort: "+msg)
+			var ok2 bool
+			vcall{call: hc, chain: chain}.run(func() {
+				ok2 = len(st.Common().Args) == 1 && sameValue(st.Common().Args[0], m.Common().Args[0])
+			})
+			r.check(!afterMk[hc.Block()], rule, key+":before-makeresult", p.instrPos(st), "step is not reachable after MakeResult", "a step can run after MakeResult was computed")
+			r.check(ok2, rule, key+":same-reconciler", p.instrPos(st), "step and MakeResult operate on the same reconciler", "MakeResult is not called on the reconciler the steps modified")
 			continue
 		}
 		nonNil, _, ok := errorEdge(f, e)
@@ -1266,6 +1304,7 @@ func ruleP05Exit(p *Prog, r *Report) {
 	if !r.anchorFn(rule, mainFn, "main.main") {
 		return
 	}
+	p.checkProcessRecover(r, rule, mainFn, run)
 	calls := callsTo(mainFn, run)
 	if len(calls) != 1 {
 		r.undecided(rule, "main:call", p.pos(mainFn.Pos()), "expected exactly one call of main.Run in main.main")
@@ -1300,6 +1339,71 @@ func ruleP05Exit(p *Prog, r *Report) {
 	r.check(exits, rule, "main:exit", exitPos, "main exits with Run's status on the err != nil edge", "main does not pass Run's status to os.Exit when err != nil")
 	// every path from Run's return on err != nil reaches that exit: the err test's non-nil
 	// successor contains the exiting call (checked by dominance of the call's block = successor)
+}
+
+// checkProcessRecover — a panic that reaches main ends the process with status 2 (the runtime's
+// doing). A recover() in main / main.Run (or in a function they defer) takes that over: once
+// it has caught something, every way on must be a new panic or an exit with a constant status
+// >= 1 — not a status held in a variable (still zero while Run has not returned), and not a
+// plain return (main then ends with status 0).
+func (p *Prog) checkProcessRecover(r *Report, rule string, roots ...*ssa.Function) {
+	n := 0
+	for _, root := range roots {
+		for _, f := range plainWithAnons(root) {
+			eachInstr(f, func(in ssa.Instruction) {
+				c, ok := in.(*ssa.Call)
+				if !ok {
+					return
+				}
+				b, isB := c.Call.Value.(*ssa.Builtin)
+				if !isB || b.Name() != "recover" {
+					return
+				}
+				n++
+				key := fmt.Sprintf("recover:%s#%d", fnName(f), n)
+				bad := ""
+				// walk forward from where something is known (or not excluded) to have been caught
+				seen := map[*ssa.BasicBlock]bool{}
+				var walk func(blk *ssa.BasicBlock, from int)
+				walk = func(blk *ssa.BasicBlock, from int) {
+					if from == 0 {
+						if seen[blk] || knownNil(blk, c) {
+							return
+						}
+						seen[blk] = true
+					}
+					for _, i2 := range blk.Instrs[from:] {
+						switch x := i2.(type) {
+						case *ssa.Panic:
+							return
+						case *ssa.Return:
+							if bad == "" {
+								bad = "after recovering, the function returns normally at " + p.instrPos(x) + ": the process ends with status 0"
+							}
+							return
+						case ssa.CallInstruction:
+							if g := staticCallee(x); g != nil {
+								for ai := range x.Common().Args {
+									if exitsWithParam(g, ai) {
+										if k, isK := constInt(x.Common().Args[ai]); (!isK || k < 1) && bad == "" {
+											bad = "the exit status passed at " + p.instrPos(x) + " is not a constant >= 1 (a status variable is still 0 while the command has not returned)"
+										}
+										return
+									}
+								}
+							}
+						}
+					}
+					for _, sc := range blk.Succs {
+						walk(sc, 0)
+					}
+				}
+				walk(c.Block(), instrIndex(c)+1)
+				r.check(bad == "", rule, key, p.instrPos(c), "a recovered panic ends in a new panic or a constant non-zero exit status", "a panic caught here does not end the process with a failure status: "+bad)
+			})
+		}
+	}
+	r.ok(rule, "recover:sites", "-", "%d recover() sites in main / main.Run", n)
 }
 
 // exitsWithParam: g is os.Exit, or unconditionally calls os.Exit with its parameter #idx.
